@@ -129,6 +129,8 @@ func runC13(c *engine.Ctx) {
 	r5 := c.Rule("R5", "every access to allocator state holds allocLk", 8)
 	r7 := c.Rule("R7", "the pending total reported by Stats is the sum over the pending lists, or a counter updated wherever pending allocations are added or dropped", 1)
 	c13PendingTotal(c, r7)
+	r8 := c.Rule("R8", "the configured limits are the limits enforced: each option stores its argument, nothing else rewrites it, and it reaches the allocator's own limit field", 4)
+	c13LimitWiring(c, r8)
 	a := loadAlloc(c, r1)
 	if a == nil {
 		return
@@ -573,5 +575,48 @@ func c13PendingTotal(c *engine.Ctx, rule string) {
 	}
 	if n == 0 {
 		c.AnchorMissing(rule, "a store to ResponseStats.TotalPendingAllocations in allocator")
+	}
+}
+
+// c13LimitWiring (R8): "never exceeds the configured total or per-peer limits" is about the values the user
+// configured.  MaxMemoryResponder / MaxMemoryPerPeerResponder store their argument in the configuration; apart from
+// the constant defaults nothing else assigns those fields; and each reaches allocator.NewAllocator at the position
+// stored into the matching limit field.
+func c13LimitWiring(c *engine.Ctx, rule string) {
+	implNew := c.P.Func("impl", "", "New")
+	ctor := c.P.Func("allocator", "", "NewAllocator")
+	if implNew == nil || ctor == nil {
+		c.AnchorMissing(rule, "impl.New / allocator.NewAllocator")
+		return
+	}
+	for _, w := range []struct{ opt, cfg, dst string }{
+		{"MaxMemoryResponder", "totalMaxMemoryResponder", "maxAllowedAllocatedTotal"},
+		{"MaxMemoryPerPeerResponder", "maxMemoryPerPeerResponder", "maxAllowedAllocatedPerPeer"},
+	} {
+		cf := c.P.Field("impl", "graphsyncConfigOptions", w.cfg)
+		df := c.P.Field("allocator", "Allocator", w.dst)
+		if cf == nil || df == nil {
+			c.AnchorMissing(rule, "impl.graphsyncConfigOptions."+w.cfg+" / allocator.Allocator."+w.dst)
+			continue
+		}
+		optionSetterWrites(c, rule, w.opt, cf)
+		configReaches(c, rule, implNew, cf, ctor, df)
+		// no other writer: every store to the field outside the option's own closure is a constant (the default)
+		optFn := c.P.Func("impl", "", w.opt)
+		bad := ""
+		for _, f := range c.P.FuncsIn("impl") {
+			for _, st := range engine.StoresTo([]*ssa.Function{f}, cf) {
+				if optFn != nil && f.Parent() == optFn {
+					continue
+				}
+				if _, isConst := engine.Strip(st.Val).(*ssa.Const); isConst {
+					continue
+				}
+				bad = fmt.Sprintf("%s assigns %s a computed value at %s", engine.FuncName(f), w.cfg, c.P.Pos(st.Pos()))
+			}
+		}
+		c.Decide(rule, "impl."+w.cfg+"|only-option-and-default", implNew.Pos(), bad == "",
+			"only the option and the constant default assign "+w.cfg,
+			"the configured limit is rewritten after the options were applied ("+bad+"): the allocator enforces, and Stats reports, a limit other than the configured one")
 	}
 }
